@@ -72,7 +72,8 @@ class Pair:
     def _sink(self, name, f):
         conn = f.get('conn')
         side = '?' if conn is None else 'c' if conn.is_client() else 's'
-        if name == 'pkt_out' and self.tracking and side in 'cs':
+        if name == 'pkt_out' and self.tracking and side in 'cs' and \
+                f.get('written', True):
             self.queue[side].append((f['pkttype'], f['wire_len'],
                                      f['payload']))
         self.events.append((side, name, f))
